@@ -78,7 +78,7 @@ def parse_details(snap, env):
             cids.append(m.group(0))
         # framework-raised exceptions carry no marker of ours: recognise them by their text
         if "Forced Test Failure" in text:
-            cids.append("tb:force:%d" % (env.nraised + 1))
+            cids.append("tb:force:1")
         for k, (snippet, cid) in enumerate(env.fmarks):
             if snippet in text and k not in used_fmarks:
                 # a framework exception raised while handling ours chains ours into its traceback text;
@@ -131,6 +131,10 @@ def observe(prog, flavours):
     obs["run2"] = {"ran": list(env.ran), "seen": list(env.seen), "names": o2["names"], "outcome": o2["outcome"], "prop": o2["prop"]}
     obs["anomalies"] += len(env.anomalies)
     return {"prog": prog, "obs": obs}
+
+
+def _observe_job(job):
+    return observe(job[0], job[1])
 
 
 def fault_key(prog):
@@ -243,6 +247,7 @@ def run(tier, pid):
             ("rt_exp_faults.cfg", ALL, {}),
             ("rt_exp_faults1.cfg", ("ext", "py26", "stream", "rtw"), {}),
             ("rt_exp_preforce.cfg", ("ext", "tt"), {}),
+            ("rt_exp_xfdec.cfg", ("ext", "py26", "stream"), {}),
             ("rt_exp_details.cfg", ("ext", "tt"), {}),
             ("rt_exp_nested.cfg", ("ext",), {}),
             ("rt_exp_triples.cfg", ("ext", "py27", "stream"), {}),
@@ -254,6 +259,7 @@ def run(tier, pid):
             ("rt_exp_faults_t.cfg", ALL, {}),
             ("rt_exp_faults1.cfg", ALL, {}),
             ("rt_exp_preforce.cfg", ("ext", "tt"), {}),
+            ("rt_exp_xfdec.cfg", ("ext", "py26", "stream"), {}),
             ("rt_exp_faults3.cfg", ("ext", "tt", "stream"), {}),
             ("rt_exp_details_t.cfg", ("ext", "tt"), {}),
             ("rt_exp_details2.cfg", ("ext",), {}),
@@ -326,19 +332,29 @@ def run(tier, pid):
         rep.extra["trace_selftest"] = "4 corrupted copies of a recorded run rejected by c01_bracket / c02_order / c03_sound / c05_details"
 
     batch = []
-    for cfg, flavours, kw in plan:
-        for p in export_programs(rep, cfg, **kw):
-            k = prog_key(p)
-            if k in seen_progs:
-                continue
-            seen_progs.add(k)
-            # 3. run the real code
-            batch.append(observe(p, flavours))
-            if len(batch) >= 20000:
-                if not selftested:
-                    selftest(batch)
-                judge(batch)
-                batch = []
+    import multiprocessing
+
+    pool = multiprocessing.Pool(int(os.environ.get("VERIF_PROCS", "8")))  # forked after use_repo(): same tree under test
+    try:
+        for cfg, flavours, kw in plan:
+            todo = []
+            for p in export_programs(rep, cfg, **kw):
+                k = prog_key(p)
+                if k in seen_progs:
+                    continue
+                seen_progs.add(k)
+                todo.append((p, flavours))
+            # 3. run the real code (programs are independent: in parallel, order preserved)
+            for obs in pool.imap(_observe_job, todo, chunksize=64):
+                batch.append(obs)
+                if len(batch) >= 20000:
+                    if not selftested:
+                        selftest(batch)
+                    judge(batch)
+                    batch = []
+    finally:
+        pool.close()
+        pool.join()
     if not selftested:
         selftest(batch)
     judge(batch)
